@@ -238,8 +238,10 @@ def nested_is_lossy():
 def process_spec(job):
   si, s, origin, seed, Q, P = job
   forced = None
+  light = False
   if isinstance(origin, tuple):          # (origin, [(label, sdna), ...]): a systematic family with its own DNAs
     origin, forced = origin
+    light = origin == 'nesting-chain-family'      # serialisation family: few dictionary combinations per DNA
   from pyglove.core import geno
   import pyglove as pgl
   DNA = geno.DNA
@@ -276,7 +278,7 @@ def process_spec(job):
   combos = [(kt, vt, mc) for kt in KTS for vt in VTS for mc in MCS]
   if forced is not None:
     work = [sd for _, sd in forced]
-    for lbl, _ in forced: ctx.hist('shared_point_family_dnas', lbl)
+    for lbl, _ in forced: ctx.hist(origin + '_dnas', lbl.split('/')[0])
   for wi, sd in enumerate(work):
     sdt = G.sdna_tr(sd)
     tree = G.normalize(sd)
@@ -300,14 +302,14 @@ def process_spec(job):
     # ---- (16) alignment of the bound DNA; (11) from_numbers; (12),(18) parsers --------------------
     add([16, qtr, str_, G.tree_tr(tree)], [[bound_tree(d, ix)]], dict(op='use_spec', spec=sdesc, dna=dstr))
     ctx.count(('bind', trlib.to_line(str_), trlib.to_line(sdt)), nontrivial=nontriv, kind='use_spec')
-    for label, lst in [('numbers', nums)] + [(k, l) for k, l in number_corruptions(rng, nums)][:(1 if forced is not None else P['ncorr'])]:
+    for label, lst in [('numbers', nums)] + [(k, l) for k, l in number_corruptions(rng, nums)][:(0 if light else 1 if forced is not None else P['ncorr'])]:
       try:
         r = DNA.from_numbers(list(lst), pg); out = [[bound_tree(r, ix)]]
       except Exception as e:
         r = None; out = [[]]; ctx.hist('from_numbers_error', type(e).__name__)
       add([11, qtr, str_, [G.val_tr(v) for v in lst]], out, dict(op='from_numbers', spec=sdesc, numbers=repr(lst), kind=label))
       ctx.count(('from_numbers', trlib.to_line(str_), repr(lst)), nontrivial=True, kind='from_numbers:' + ('valid' if label == 'numbers' else 'corrupted'))
-    for label, val in [('nested', nested), ('compact', compact)] + nest_corruptions(rng, compact)[:(1 if forced is not None else P['ncorr'])]:
+    for label, val in [('nested', nested), ('compact', compact)] + nest_corruptions(rng, compact)[:(0 if light else 1 if forced is not None else P['ncorr'])]:
       try:
         r = DNA(val); out = [[G.tree_tr(G.dna_to_tree(r))]]
       except Exception as e:
@@ -321,7 +323,7 @@ def process_spec(job):
     add([18] + [verbose[0], verbose[1:]], out, dict(op='from_json(verbose)', spec=sdesc, dna=dstr))
     ctx.count(('verbose', dstr), nontrivial=nontriv, kind='json-verbose')
     # ---- (13) to_dict under every parameter combination, (14) from_dict of the result -------------
-    sel = combos if wi < P['ndict'] else rng.sample(combos, P['nfam'] if forced is not None else 4)
+    sel = rng.sample(combos, 2) if light else (combos if wi < P['ndict'] else rng.sample(combos, P['nfam'] if forced is not None else 4))
     for kt, vt, mc in sel:
       kti, vti, mci = KTS.index(kt), VTS.index(vt), MCS.index(mc)
       for inactive in ([False, True] if (kti + vti + mci + wi) % 3 == 0 else [False]):
@@ -350,6 +352,9 @@ def process_spec(job):
           add([14, qtr, str_, dtr2, int(ial)], out, dict(op='from_dict', spec=sdesc, params=(kt, vt, mc), dict=repr(dv)[:300], kind=label, dna=dstr))
           ctx.count(('from_dict', trlib.to_line(str_), trlib.to_line(dtr2), ial), nontrivial=True, kind='from_dict:' + label.split(':')[0])
     # ---- (15) lookups ------------------------------------------------------------------------------
+    if light:
+      oracle_views(ctx, s, pg, ix, sd, d, sdesc, rng, P, full=False, light=True); ctx.oracle += 1
+      continue
     try:
       byid = d._decision_by_id   # pylint: disable=protected-access
       named = d.named_decisions
@@ -361,7 +366,7 @@ def process_spec(job):
         dict(op='lookups', spec=sdesc, dna=dstr))
     ctx.count(('lookups', trlib.to_line(str_), trlib.to_line(sdt)), nontrivial=nontriv, kind='lookups')
     # ---- the direct oracle -----------------------------------------------------------------------------
-    oracle_views(ctx, s, pg, ix, sd, d, sdesc, rng, P, full=(wi < P['ndict'] or forced is not None)); ctx.oracle += 1
+    oracle_views(ctx, s, pg, ix, sd, d, sdesc, rng, P, full=((wi < P['ndict'] or forced is not None) and not light), light=light); ctx.oracle += 1
   # ---- chains of producers ------------------------------------------------------------------------------
   for ci in range(0 if forced is not None else P['nchains']):
     try:
@@ -451,7 +456,7 @@ def alignment_problem(d, s, sd, ix):
   exp = expected_bound(s, sd, oval)
   return None if got == exp else (got, exp)
 
-def oracle_views(ctx, s, pg, ix, sd, d, sdesc, rng, P, full=True):
+def oracle_views(ctx, s, pg, ix, sd, d, sdesc, rng, P, full=True, light=False):
   from pyglove.core import geno
   import pyglove as pgl
   DNA = geno.DNA
@@ -473,8 +478,25 @@ def oracle_views(ctx, s, pg, ix, sd, d, sdesc, rng, P, full=True):
   attempt('json-roundtrip', 'compact', lambda: pgl.from_json(pgl.to_json(d)))
   attempt('json-roundtrip', 'verbose', lambda: pgl.from_json(d.to_json(compact=False)))
   attempt('json-roundtrip', 'compact-value', lambda: DNA(d.to_json(type_info=False)))
+  attempt('json-roundtrip', 'json-str', lambda: pgl.from_json_str(pgl.to_json_str(d)))
+  attempt('json-roundtrip', 'json-str-verbose', lambda: pgl.from_json_str(pgl.to_json_str(d, compact=False)))
+  # the printed form DNA(<compact value>) reads back through the constructor
+  attempt('text-roundtrip', 'repr', lambda: DNA(eval(repr(d)[3:], {})))
+  attempt('text-roundtrip', 'str', lambda: DNA(eval(str(d)[3:], {})))
+  # the DNA that comes back, re-bound to the specification, is the original in every respect
+  def rebound_same():
+    r = pgl.from_json_str(pgl.to_json_str(d)).use_spec(pg)
+    if r.to_numbers() != d.to_numbers() or repr(r.to_dict()) != repr(d.to_dict()) or repr(r.to_dict('name_or_id', 'literal', 'both')) != repr(d.to_dict('name_or_id', 'literal', 'both')):
+      raise ValueError('numbers or dictionary views of the re-bound DNA differ: %r vs %r' % (r.to_numbers(), d.to_numbers()))
+    for dp in (pg.decision_points if light else []):
+      a, b2 = r[dp], d[dp]
+      if (a is None) != (b2 is None) or (a is not None and G.freeze(G.dna_to_tree(a)) != G.freeze(G.dna_to_tree(b2))):
+        raise ValueError('lookup of %s differs on the re-bound DNA' % dp.id.path)
+    if alignment_problem(r, s, sd, ix): raise ValueError('the re-bound DNA is not aligned')
+    return r
+  attempt('json-roundtrip', 'rebound', rebound_same)
   allc = [(kt, vt, mc) for kt in KTS for vt in VTS for mc in MCS]
-  for kt, vt, mc in (allc if full else rng.sample(allc, 6)):
+  for kt, vt, mc in (allc if full else rng.sample(allc, 3 if light else 6)):
     if True:
       if True:
         if not view_ok(s, kt, vt): ctx.hist('view_ok', False); continue
@@ -488,6 +510,10 @@ def oracle_views(ctx, s, pg, ix, sd, d, sdesc, rng, P, full=True):
               fail('views-differ-from-rebuilt', disc, 'to_dict(%s, %s, %s) = %r but the DNA rebuilt from the numbers gives %r' % (kt, vt, mc, d.to_dict(kt, vt, mc), rebuilt.to_dict(kt, vt, mc)))
           except Exception as e:   # pylint: disable=broad-except
             fail('views-differ-from-rebuilt', disc + '/raises', 'rebuilding from numbers raises %s' % type(e).__name__)
+  if light:
+    pb = alignment_problem(d, s, sd, ix)
+    if pb: fail('alignment', 'use_spec', 'nodes are bound to %r, their positions are %r' % pb)
+    return
   # lookups: by decision point, by id; by name when the name identifies one decision
   exp = decisions_at(s, sd)
   names = {}
@@ -669,9 +695,17 @@ def run(ctx):
   ctx.extra['shared_point_family'] = dict(specs=len(family), dnas=sum(len(d) for _, _, d in family),
       what='choice / choice+literals / float / custom x named/unnamed (x outer named) inside candidate 1 of manyof(k, 3 candidates) in all four distinct x sorted modes; '
            'DNAs pick that candidate once, twice with equal and twice with different sub-values; every one of the 45 view combinations is round-tripped by the oracle')
+  # systematic: chains oneof -> oneof -> ... of depth 1..4 ending in every kind of sub-space, every branch chosen; all serialisations
+  chains = G.nesting_chain_family(max_depth=4 if ctx.thorough else 3)
+  if not ctx.thorough:    # quick: the sibling variant only for the deepest chains
+    chains = [c for c in chains if '+sibling' not in c[0] or (c[0].startswith('depth2') and '/first' in c[0])]
+  ctx.extra['nesting_chain_family'] = dict(specs=len(chains), dnas=sum(len(d) for _, _, d in chains),
+      what='oneof -> oneof -> ... (depth 1..%d, continuing candidate first / last, alone or next to a sibling point) ending in leaf / float / custom / Space with 2 or 3 points / manyof k=2,3 / manyof with nested choices; '
+           'every branch chosen; compact, verbose, json_str, nested numbers and printed form are round-tripped and the re-bound DNA compared (equality, numbers, views, lookups, alignment)' % (4 if ctx.thorough else 3))
   tail = [(s, 'small+names/literals') for s in chosen] + [(s, 'random') for s in rand_specs]
   rng.shuffle(tail)      # a wall-clock cut on a busy machine then hits both groups proportionally
-  specs = [(s, 'fixed') for s in FIXED_SPECS + FIXED_C12] + [(s, ('shared-point-family', dnas)) for _, s, dnas in family] + tail
+  specs = [(s, 'fixed') for s in FIXED_SPECS + FIXED_C12] + [(s, ('shared-point-family', dnas)) for _, s, dnas in family] + \
+          [(s, ('nesting-chain-family', dnas)) for _, s, dnas in chains] + tail
   if os.environ.get('C12_MAXSPECS'):
     specs = specs[::max(1, len(specs) // int(os.environ['C12_MAXSPECS']))]
   jobs = [(si, s, origin, rng.getrandbits(48), Q, P) for si, (s, origin) in enumerate(specs)]
